@@ -93,6 +93,9 @@ def evaluate(c):
         s.voltage = s.voltage * sc
         s.magnitude = abs(s.voltage)
     lam = geom.C_MININEC / m.f
+    if name == 'laplace':
+        # a second, order-4 rational load (two lossy traps in series written as one function) on another pulse
+        m.register_load(mm.Laplace_Load(a=[1., 1.5e-10, 1.5e-16, 7.5e-27, 2.5e-33], b=[2., 3.0000003e-06, 4.5e-16, 2.25e-22, 0.]), 1)
     m.compute()
     label = '%s x1e%d' % (name, c['scale'])
 
@@ -164,6 +167,30 @@ def evaluate(c):
                 viol.append(('LOAD-PULSE', '%s: load line names pulse %s, expected %d' % (label, ps, pe)))
             chk('LOAD-R', a, z.real, 'load resistance on pulse %d' % pe)
             chk('LOAD-X', b_, z.imag, 'load reactance on pulse %d' % pe)
+    # Laplace-type loads: order and coefficient table (L, C in uH, uF: coefficient of s^d times 10^(6d)), and the impedance the
+    # printed table gives at this frequency
+    lt = text[text.index('NUMBER OF LOADS'):text.index('SOURCE DATA')] if 'NUMBER OF LOADS' in text else ''
+    lblocks = re.findall(r'PULSE NO\., ORDER OF S-PARAMETER FUNCTION:\s*(\d+)\s*,\s*(\d+)((?:\s*NUMERATOR, DENOMINATOR COEFFICIENTS OF S\^\d+ :\s*\S+\s*,\s*\S+)*)', lt)
+    expl = [(p.idx + 1, l) for l in m.loads if isinstance(l, mm.Laplace_Load) for p in l.pulses]
+    if len(lblocks) != len(expl):
+        viol.append(('STRUCT-LOADS', '%s: %d S-parameter blocks for %d loaded pulses' % (label, len(lblocks), len(expl))))
+    else:
+        for (ps, od, body), (pe, l) in zip(lblocks, expl):
+            co = re.findall(r'S\^(\d+) :\s*(\S+)\s*,\s*(\S+)', body)
+            if int(ps) != pe or int(od) != l.degree or [int(x[0]) for x in co] != list(range(l.degree + 1)):
+                viol.append(('LOAD-LAPLACE-STRUCT', '%s: block for pulse %s order %s with coefficient lines %s; load on pulse %d has order %d' % (label, ps, od, [x[0] for x in co], pe, l.degree)))
+                continue
+            num = den = 0j
+            sv = 2j * math.pi * m.f          # rad / microsecond for f in MHz
+            for d, b_, a_ in co:
+                d = int(d)
+                chk('LOAD-LAPLACE-COEFF', b_, float(l.b[d]) * 10.0 ** (6 * d), 'numerator coefficient of s^%d, load on pulse %d' % (d, pe))
+                chk('LOAD-LAPLACE-COEFF', a_, float(l.a[d]) * 10.0 ** (6 * d), 'denominator coefficient of s^%d, load on pulse %d' % (d, pe))
+                num += float(b_) * sv ** d
+                den += float(a_) * sv ** d
+            z = l.impedance(m.f, m.pulses[pe - 1])
+            if abs(num / den - z) > 2e-5 * abs(z):
+                viol.append(('LOAD-LAPLACE-Z', '%s: the printed coefficient table of the load on pulse %d gives %s at %g MHz, the load acts as %s' % (label, pe, num / den, m.f, z)))
     # --- currents
     cb = report.parse_currents(text)
     rawcur = {}
